@@ -208,7 +208,6 @@ pub mod verif;
 mod vm;
 
 use crate::analyze::analyze;
-use crate::compile::compile;
 use crate::parse::{ExprTree, NamedGroups, Parser};
 use crate::vm::{Prog, OPTION_SKIPPED_EMPTY_MATCH};
 
@@ -698,7 +697,7 @@ impl Regex {
             });
         }
 
-        let prog = compile(&info)?;
+        let prog = compile::compile_with_options(&info, &options)?;
         Ok(Regex {
             inner: RegexImpl::Fancy {
                 prog,
